@@ -50,7 +50,7 @@ def model_check(chk):
 
     def one(job):
         cfg, kind = job
-        return cfg, vlib.tlc(MODULE, cfg, workers=workers, timeout=1500 if not chk.quick else 400)
+        return cfg, vlib.tlc(MODULE, cfg, workers=workers, timeout=1500 if not chk.quick else 900)
     with concurrent.futures.ThreadPoolExecutor(max_workers=max(2, vlib.NCPU // 3)) as ex:
         for cfg, res in ex.map(one, jobs):
             if not res.ok:
@@ -238,7 +238,8 @@ def replay_scripts(chk, cases):
     chk.parts["replay"] = {"schedules": len(cases), "runs": len(runs), "lab_failures": lab, "gates_released": tot.get("gates", 0),
                            "gates_not_reached": tot.get("gatesMissed", 0), "runs_with_close_notify": tot.get("withCloseNotify", 0),
                            "peer_read_eof_checked": tot.get("peerEOF", 0), "divergence_notes": ndiv}
-    if tot.get("gates", 0) - tot.get("gatesMissed", 0) < 50 or tot.get("withCloseNotify", 0) < 20 or tot.get("peerEOF", 0) < 5:
+    if not chk.violations and (tot.get("gates", 0) - tot.get("gatesMissed", 0) < 50 or tot.get("withCloseNotify", 0) < 20
+                               or tot.get("peerEOF", 0) < 5):
         raise vlib.Inconclusive("vacuous replay: %s" % chk.parts["replay"])
     for r in runs[:3]:
         c = byid[r["case"]]
@@ -344,7 +345,7 @@ def stress(chk):
     nev = sum(len(r.get("trace") or []) for r in good)
     chk.parts["stress"] = {"cases": len(cases), "runs": len(good), "api_calls": sum(r.get("ops", 0) for r in good), "trace_events": nev,
                            "race_reports": nrace, "race_detector": True}
-    if nev < 200 or sum(r.get("ops", 0) for r in good) < 1000:
+    if not chk.violations and (nev < 200 or sum(r.get("ops", 0) for r in good) < 1000):
         raise vlib.Inconclusive("vacuous stress run: %s" % chk.parts["stress"])
 
 
